@@ -119,6 +119,12 @@ theorem parser_output_disjoint_from_input :
     (Gen.parserAliasesParam.lookup "quoteToProtoV4" = some false) ∧ (Gen.parserAliasesParam.lookup "QuoteToProto" = some false) := by
   decide
 
+/-- no function of the parsing, verification, validation, extension-extraction, quote-fetching and retry paths assigns to,
+    increments, takes the address of, or calls a pointer-receiver method on a package-level variable (outside `init`):
+    there is no package state that concurrent calls could race on, and none that one call could leave for the next
+    (lazily filled caches, pools of buffers or hashers, counters).  Regenerated from the source on every run. -/
+theorem no_package_state_written : Gen.packageStateWrites = [] := by decide
+
 /-! ### the pinned tree (finding F3): `append(attestKey, qeAuthData...)` writes behind the key -/
 
 /-- a message buffer in which the 4-byte key is followed by spare capacity (here: the bytes `9 9 9 9`), and auth data `1 2` -/
